@@ -235,6 +235,12 @@ r10 = @{ PUSH("a") ~ PUSH("") ~ PUSH("b") ~ POP+ ~ (PEEK_ALL ~ "b")? }
 r11 = { PUSH("a") ~ !(&PUSH("b") ~ POP) ~ "b" ~ POP }
 r12 = { PUSH("a") ~ &(PUSH("b") ~ "b") ~ "b" ~ POP }
 r13 = { PUSH("a") ~ PUSH("b") ~ (DROP{1,3} ~ "a")? ~ PEEK_ALL }
+r14 = { PUSH("a") ~ (DROP ~ PUSH("b") ~ "!" | "b") ~ POP }
+r15 = { PUSH("a") ~ (POP ~ PUSH("b") ~ "!")? ~ PEEK }
+r16 = { PUSH("a") ~ PUSH("b") ~ (DROP ~ DROP ~ PUSH("ab") ~ "!" | "ab") ~ POP ~ POP }
+r17 = { PUSH("a") ~ ("b" ~ DROP ~ PUSH("b") ~ "!")* ~ "b"? ~ PEEK }
+r18 = { PUSH("a") ~ !(DROP ~ PUSH("b") ~ "a") ~ &(POP ~ PUSH("b")) ~ PEEK }
+r19 = @{ PUSH("a") ~ PUSH("b") ~ (POP ~ POP ~ PUSH("b") ~ PUSH("a") ~ "!")? ~ PEEK_ALL }
 ''')
     add("s_builtin", r'''
 r0 = { ASCII_DIGIT+ ~ ASCII_ALPHA* }
@@ -264,6 +270,21 @@ WHITESPACE = _{ " " }
 r0 = @{ (!"ab" ~ ANY)* }
 r1 = @{ (!("ab" | "c") ~ ANY)* ~ "ab" }
 r2 = { (!"b" ~ ANY)* ~ "b" }
+''')
+    # skip rules of kind normal / silent with a sequence or repetition in the body, only one of the two defined:
+    # implicit skipping still matches them atomically (pest does too); they are outside C01's hypothesis
+    # (SkipRulesAtomicLike) only because an EXPLICIT reference would differ (F-WS), so the oracle judges them
+    add("s_skip_seqbody_c", r'''
+r0 = { "a" ~ "b" }
+r1 = { "a"+ ~ r0? }
+r2 = !{ "a" ~ r0* }
+COMMENT = _{ "/*" ~ (!"*/" ~ ANY)* ~ "*/" }
+''')
+    add("s_skip_seqbody_w", r'''
+r0 = { "a" ~ "b" }
+r1 = { "a"+ ~ r0? }
+cont = { "\\" ~ "\n" }
+WHITESPACE = { " " | cont }
 ''')
     # known finding F-WS: skip rules that are not declared @/$ and contain a sequence / rule reference
     add("s_fws", r'''
